@@ -34,8 +34,14 @@ TRUSTED_BASE = [
     "frozen code tables (c19_tables.py); both are compared on every generated case",
     "tools/translate/gen_c19.py (ast -> Lean) for the MODE/WHITE/BLACK/UNCOMPRESSED tables; the tries built from the "
     "translated tables are compared with the tries BitParser.add built in the running interpreter",
-    "hand model lean/PdfVerif/Model/Ccitt.lean of BitParser/CCITTG4Parser/CCITTFaxDecoder/ccittfaxdecode "
-    "(differential correspondence on encoded, damaged and random streams)",
+    "tools/translate/gen_c19.py also regenerates Gen/CcittCode.lean (loop conditions, offsets, clamps, thresholds, "
+    "bit masks, defaults, _parse_mode dispatch: expressions translated generically inside pinned statement "
+    "skeletons) and Gen/CcittStream.lean (key / filter names and lookup orders of get_filters, _decode, "
+    "ccittfaxdecode); everything generated is used by the executable model and therefore tie-checked",
+    "hand model lean/PdfVerif/Model/Ccitt.lean (control structure of BitParser/CCITTG4Parser/CCITTFaxDecoder/"
+    "ccittfaxdecode) and Model/CcittStream.lean (get_any/get_filters/_decode CCITT branch, Python ==/truthiness of "
+    "parameter objects): differential correspondence on encoded, damaged, crafted and random streams and on "
+    "well- and ill-formed stream dictionaries",
 ]
 ASSUMPTIONS = [
     "K = -1 (Group 4), Columns >= 1 (or absent = 1728); the encoder does not use the optional uncompressed-mode "
@@ -59,6 +65,19 @@ STATEMENT_STATUS: Dict[str, str] = {
     "image_rt": "proved at full strength: all widths >= 1, heights >= 0, choices, EncodedByteAlign, EOFB, BlackIs1",
     "stream_rt": "proved: same through the parameter dictionary with ISO defaults for absent keys "
                  "(Columns 1728 after fix 8b16a54)",
+    "decodeChain_append": "proved: the filter loop of PDFStream._decode composes",
+    "ccittBranch_rt": "proved: round trip through the parameter dictionary as parsed objects; /Rows, /EndOfBlock, "
+                      "/EndOfLine, /DamagedRowsBeforeError and any other entry are never read",
+    "pdfstream_rt": "proved: PDFStream.get_data() for every spelling get_filters accepts (Filter/F, name or array, "
+                    "DecodeParms/DP/FDecodeParms, dictionary or array), CCITTFaxDecode last in a filter chain",
+    "getFilters_name_dict": "proved (pairing lemma)", "getFilters_arr_arr": "proved (pairing lemma)",
+    "getFilters_arr_dict": "proved (pairing lemma)",
+    "decode_total": "proved for EVERY byte string: result, InvalidData, or PDFValueError (K != -1); no internal "
+                    "branch reachable (feeds C13)",
+    "decode_output_bounded": "proved: at most 48 lines of output per input byte",
+    "ccittBranch_total": "proved: totality through the dictionary route",
+    "uncompressed_mode_cex": "proved counter-example: the uncompressed-mode extension (outside the property: not "
+                             "pass/vertical/horizontal) never completes a row after `width` pixels",
 }
 CLASSIFIERS: Dict[str, Any] = {}
 
